@@ -36,7 +36,7 @@ arguments. For more detailed descriptions, see the respective docstrings.
 # external packages
 import gc
 from typing import List, Union, Dict, Optional, Tuple, Callable
-from copy import deepcopy
+from copy import copy, deepcopy
 from warnings import warn
 import pandas as pd
 from pandas import DataFrame, MultiIndex
@@ -1104,6 +1104,12 @@ class CircuitTemplate(AbstractBaseTemplate):
         net = self.circuits if self.circuits else self.nodes
         net_node = net[node[0]]
         if isinstance(net_node, CircuitTemplate):
+            # the same sub-circuit object may be used under several keys (or by other circuits): write into a copy of
+            # it that belongs to this key only
+            net_node = copy(net_node)
+            net_node.nodes = dict(net_node.nodes)
+            net_node.circuits = dict(net_node.circuits)
+            net[node[0]] = net_node
             net_node.add_node_template(node[1:], template=template)
         else:
             self.nodes[node[0]] = template
